@@ -870,6 +870,7 @@ func (e *Env) execInstr(fr *Frame, ins ssa.Instruction, st *State) {
 		m := e.get(fr, x.Map, st).(*MapV)
 		e.panicCheck(fr, "nilmap", st, mkNot(mkEq(m.Ref, "0")))
 		e.mapUpdate(st, m, e.get(fr, x.Key, st), e.get(fr, x.Value, st))
+		e.ghostAt(fr, "mapupdate", fieldNameOf(x.Map), []Value{e.get(fr, x.Key, st), e.get(fr, x.Value, st)}, st)
 	case *ssa.MakeMap:
 		fr.regs[x] = e.makeMap(st, x.Type())
 	case *ssa.MakeSlice:
@@ -922,6 +923,7 @@ func (e *Env) execInstr(fr *Frame, ins ssa.Instruction, st *State) {
 		e.trust("go statement in " + fr.fn.Name() + ": effects of the spawned goroutine are not merged into the spawner")
 	case *ssa.Send:
 		e.trust("channel send: no effect on modelled state")
+		e.ghostAt(fr, "send", "", []Value{e.get(fr, x.Chan, st), e.get(fr, x.X, st)}, st)
 	case *ssa.Select:
 		fr.regs[x] = e.freshValue(x.Type(), "select")
 		e.trust("select: outcome and received values havocked")
@@ -1547,4 +1549,37 @@ func dedupe(xs []string) []string {
 		}
 	}
 	return out
+}
+
+// fieldNameOf names the struct field a value was loaded from (v = *(&x.f)), or "".
+func fieldNameOf(v ssa.Value) string {
+	if u, ok := v.(*ssa.UnOp); ok {
+		if fa, ok := u.X.(*ssa.FieldAddr); ok {
+			st := fa.X.Type().Underlying().(*types.Pointer).Elem().Underlying().(*types.Struct)
+			return st.Field(fa.Field).Name()
+		}
+	}
+	if f, ok := v.(*ssa.Field); ok {
+		return f.X.Type().Underlying().(*types.Struct).Field(f.Field).Name()
+	}
+	return ""
+}
+
+// ghostAt runs the ghost emissions the contract of the function under verification attaches
+// to this kind of instruction. Only in the function's own frame (not in inlined callees).
+func (e *Env) ghostAt(fr *Frame, kind, arg string, ops []Value, st *State) {
+	if fr.item == nil || fr.parent != nil || len(fr.item.GhostAt) == 0 || e.quantDepth > 0 {
+		return
+	}
+	for _, g := range fr.item.GhostAt {
+		if g.Kind != kind || (g.Arg != "" && g.Arg != arg) {
+			continue
+		}
+		vars := e.invVars(fr)
+		for i, o := range ops {
+			vars[fmt.Sprintf("op%d", i)] = o
+		}
+		ctx := &SpecCtx{e: e, st: st, old: fr.entrySt, vars: vars, pkg: e.w.typesPkg(fr.item.Pkg)}
+		e.emitFor(&Item{Emits: []*Emit{g.Emit}}, ctx, st)
+	}
 }
